@@ -11,7 +11,7 @@ import warnings
 from datetime import datetime
 warnings.simplefilter("ignore")
 
-INERT = ["call bob", "gym", "pay rent #home", "la la land", "#a review #b-c notes"]
+INERT = ["#home shop #home", "call bob", "gym", "pay rent #home", "la la land", "#a review #b-c notes"]
 EXPRS = ["9am monday", "monday 9am", "tomorrow at 5pm", "5pm tomorrow", "friday 8pm-9pm", "8pm-9pm friday",
          "3 Feb 2020", "on friday at 10:30", "10:30 on friday", "next week", "in 3 days", "may 5th at noon",
          "at noon may 5th", "tomorrow morning", "morning tomorrow", "monday", "8pm"]
@@ -29,6 +29,13 @@ def main():
         base = ctparse(inert, ts=ts, timeout=0)
         if base is None or base.resolution is not None:
             continue
+        import re
+        want = re.findall(r"#([A-Za-z_][A-Za-z0-9_-]*)", inert)
+        cases += 1
+        judged += 1
+        if base.labels != want:
+            bad.append({"text": inert, "labels": base.labels, "expected_labels": want, "subject": base.subject,
+                        "expected_subject": base.subject})
         words = inert.split()
         for e in exprs:
             variants = [(inert + " " + e, len(inert) + 1), (e + " " + inert, 0)]
